@@ -23,7 +23,7 @@ func init() {
 				"(tables) the id tables: save and load use the same key prefixes and count keys, the persisted count is the table length after insertion (what the loaders' loop bounds assume), new ids are derived from the table length, and the id types are wide enough for their tables — the public-key id is a uint16 computed as uint16(len)+1, which wraps after 65 535 keys (known finding); " +
 				"(lock) C25.map covers the tables' locking. NOT decided: JSON/amino encoding of the stored items, big.Int string round trips.",
 			Assumptions: stdAssumptions,
-			Rules:       []string{"C24.pairs", "C24.dispatch", "C24.tables", "C24.width"},
+			Rules:       []string{"C24.pairs", "C24.dispatch", "C24.tables", "C24.width", "C24.cache"},
 		},
 		Run: runC24,
 	})
@@ -104,6 +104,7 @@ func isAddrOrKey(t types.Type) string {
 }
 
 func runC24(c *core.Ctx) {
+	defer checkCacheLoaded(c, "C24.cache")
 	pkg := c.PkgBy[pkgEvents]
 	if pkg == nil {
 		c.Unk("C24.pairs", "package", token.NoPos, "events package not found")
@@ -569,4 +570,157 @@ func keysOfMap(m map[string]bool) []string {
 	}
 	sort.Strings(out)
 	return out
+}
+
+// checkCacheLoaded — C24.cache. The id tables of the events store (address ↔ id, public key ↔ id)
+// live on disk and are read into memory on first use by a loader of the shape
+// `if len(store.T) == 0 { …read the records… }`. Stored events carry ids only, so every entry
+// point of the store that resolves or assigns ids has to run the loader first; an entry point
+// that does not works on empty tables in a freshly started process — events are returned with
+// zero addresses (or a nil key dereference crashes the API), and new ids collide with stored ones.
+// Derived: the loader (method without parameters whose store reads are guarded by a len() test
+// of a map field of the store), the tables (map fields written by what the loader calls), the
+// entry points (exported methods of the store type). Decided: in every entry point that can
+// reach an access of a table, a call of the loader dominates the access (or the call leading to it).
+func checkCacheLoaded(c *core.Ctx, rule string) {
+	st := c.Named(pkgEvents, "eventsStore")
+	if st == nil {
+		c.Unk(rule, "events.eventsStore", token.NoPos, "type not found")
+		return
+	}
+	isStoreField := func(fa *ssa.FieldAddr) bool {
+		n := namedOf(fa.X.Type())
+		return n != nil && n.Obj() == st.Obj()
+	}
+	var methods []*ssa.Function
+	ms := c.Prog.MethodSets.MethodSet(types.NewPointer(st))
+	for i := 0; i < ms.Len(); i++ {
+		if fn := c.Prog.FuncValue(ms.At(i).Obj().(*types.Func)); fn != nil && fn.Blocks != nil && fn.Synthetic == "" {
+			methods = append(methods, fn)
+		}
+	}
+	cg := c.CG()
+	readsDB := func(fn *ssa.Function) bool {
+		for _, s := range core.Sites(fn) {
+			if s.Common.IsInvoke() && (s.Common.Method.Name() == "Get" || s.Common.Method.Name() == "Iterator") {
+				return true
+			}
+		}
+		return false
+	}
+	// the loader
+	var loader *ssa.Function
+	for _, fn := range methods {
+		if len(fn.Params) != 1 {
+			continue
+		}
+		for _, s := range core.Sites(fn) {
+			callee := s.Common.StaticCallee()
+			if callee == nil || !c.InRepo(callee) {
+				continue
+			}
+			reach := cg.Reachable([]*ssa.Function{callee}, nil)
+			rd := false
+			for g := range reach {
+				if readsDB(g) {
+					rd = true
+				}
+			}
+			if !rd {
+				continue
+			}
+			for _, g := range core.GatesBefore(s.Instr) {
+				if core.DependsOn(g.If.Cond, func(v ssa.Value) bool {
+					fa, ok := v.(*ssa.FieldAddr)
+					if !ok || !isStoreField(fa) {
+						return false
+					}
+					_, isMap := fa.Type().(*types.Pointer).Elem().Underlying().(*types.Map)
+					return isMap
+				}) {
+					loader = fn
+				}
+			}
+		}
+	}
+	if loader == nil {
+		c.Unk(rule, "eventsStore/loader", st.Obj().Pos(), "the lazy loader of the id tables was not found")
+		return
+	}
+	// the tables: map fields of the store written below the loader
+	tables := map[string]bool{}
+	for g := range cg.Reachable([]*ssa.Function{loader}, nil) {
+		for _, b := range g.Blocks {
+			for _, in := range b.Instrs {
+				if mu, ok := in.(*ssa.MapUpdate); ok {
+					if ld, ok := core.Unwrap(mu.Map).(*ssa.UnOp); ok {
+						if fa, ok := ld.X.(*ssa.FieldAddr); ok && isStoreField(fa) {
+							tables[fieldNameOf(fa)] = true
+						}
+					}
+				}
+			}
+		}
+	}
+	accesses := func(fn *ssa.Function) []ssa.Instruction {
+		var out []ssa.Instruction
+		for _, b := range fn.Blocks {
+			for _, in := range b.Instrs {
+				if fa, ok := in.(*ssa.FieldAddr); ok && isStoreField(fa) && tables[fieldNameOf(fa)] {
+					out = append(out, in)
+				}
+			}
+		}
+		return out
+	}
+	below := cg.Reachable([]*ssa.Function{loader}, nil)
+	n := 0
+	for _, fn := range methods {
+		if fn == loader || fn.Object() == nil || !fn.Object().Exported() {
+			continue
+		}
+		// instructions of fn that are, or lead to, a table access outside the loader's own code
+		var points []ssa.Instruction
+		points = append(points, accesses(fn)...)
+		for _, s := range core.Sites(fn) {
+			callee := s.Common.StaticCallee()
+			if callee == nil || callee == loader || !c.InRepo(callee) {
+				continue
+			}
+			for g := range cg.Reachable([]*ssa.Function{callee}, func(x *ssa.Function) bool { return x == loader }) {
+				if _, isBelow := below[g]; isBelow && g != callee {
+					continue
+				}
+				if g != loader && len(accesses(g)) > 0 {
+					points = append(points, s.Instr)
+					break
+				}
+			}
+		}
+		if len(points) == 0 {
+			continue
+		}
+		n++
+		var loads []ssa.Instruction
+		for _, s := range core.Sites(fn) {
+			if s.Common.StaticCallee() == loader {
+				loads = append(loads, s.Instr)
+			}
+		}
+		bad := ""
+		for _, p := range points {
+			ok := false
+			for _, l := range loads {
+				if core.Dominates(l, p) {
+					ok = true
+				}
+			}
+			if !ok && bad == "" {
+				bad = c.PosStr(p.Pos())
+			}
+		}
+		c.Check(bad == "", rule, "eventsStore."+fn.Name(), fn.Pos(), "the id tables are loaded ("+loader.Name()+") before this entry point uses them",
+			fmt.Sprintf("%s uses the id tables (at %s) without having called %s: in a freshly started process the tables are empty — stored events resolve to zero addresses / nil keys, and newly assigned ids collide with the stored ones", fn.Name(), bad, loader.Name()))
+	}
+	c.Floor(rule, n, 2, "entry points of the events store that use the id tables")
 }
